@@ -70,4 +70,40 @@ def DefaultedNonNull (sem : Sem) (f : Field) (v : Val) : Prop :=
 /-- entry `k` of `d` is the entry the writer emitted -/
 def entryIs (d : Dict) (k : String) (e : Option Prim) : Prop := dget k d = e
 
+/-! ## the first law from the value side
+
+`RoundTrips` starts from a value too, but only says that the value read back *writes* the same. The statements
+below say that it *is* the same: what the writer produces for `v` is read back as `v`. -/
+
+/-- writing `v` succeeds with `p` ⇒ reading `p` gives `v` back -/
+def ReadsBack (rd : Prim → R Val) (wr : Val → R Prim) (v : Val) : Prop :=
+  ∀ p, wr v = .ok p → rd p = .ok v
+
+/-- the exact leaf law -/
+def Sem.LawV (sem : Sem) (env : Env) (lok : Shape → Val → Prop) : Prop :=
+  ∀ s v, s.isContainer = false → lok s v → ReadsBack (sem.rd env s) (sem.wr s) v
+
+/-- the values the containers give back exactly: `Some(x)` only for an `x` that does not write as `null` (it would
+    be read as `None`), `MaybeRef::Direct(x)` only for an `x` that does not write as a reference (it would be read
+    as `Indirect`), an `Indirect` / `RcRef` whose loaded value is what the environment loads -/
+def ValOkV (cfg : Cfg) (sem : Sem) (env : Env) (lok : Shape → Val → Prop) : Shape → Val → Prop
+  | .option _, .none => True
+  | .option a, .some v => ValOkV cfg sem env lok a v ∧ ∀ p, writeShape sem a v = .ok p → p.isNull = false
+  | .vec a, .list vs => ∀ v ∈ vs, ValOkV cfg sem env lok a v
+  | .hashMap a, .map kvs => ∀ kv ∈ kvs, ValOkV cfg sem env lok a kv.2
+  | .pair a b, .pair x y => ValOkV cfg sem env lok a x ∧ ValOkV cfg sem env lok b y
+  | .box a, v => ValOkV cfg sem env lok a v
+  | .maybeRef a, .direct v => ValOkV cfg sem env lok a v ∧ ∀ p, writeShape sem a v = .ok p → p.isRef = false
+  | .maybeRef a, .indirect r v => r.isRef = true ∧ getTyped env (fun q => readShape cfg sem env a q) r = .ok v
+  | .rcRef a, .indirect r v => r.isRef = true ∧ getTyped env (fun q => readShape cfg sem env a q) r = .ok v
+  | .ref _, .leaf r => r.isRef = true
+  | .lazy _, .lazy _ => True
+  | .option _, _ | .vec _, _ | .hashMap _, _ | .pair _ _, _ | .maybeRef _, _ | .rcRef _, _ | .ref _, _
+  | .lazy _, _ => False
+  | s, v => lok s v
+
+/-- the exact law of one field, in terms of what the writer emits for it -/
+def FieldLawV (cfg : Cfg) (sem : Sem) (env : Env) (f : Field) (v : Val) : Prop :=
+  ∀ e, emit sem f v = .ok e → readShape cfg sem env f.shape (e.getD .null) = .ok v
+
 end Derive
